@@ -3,6 +3,7 @@ import Driver.Cycle
 import Driver.Auth
 import Driver.Hist
 import Driver.Defs
+import Driver.Glob
 import Driver.Params
 import Driver.Log
 import Driver.Load
@@ -22,6 +23,9 @@ def main (args : List String) : IO UInt32 := do
     return 0
   | ["cycle"] =>
     for l in lines do out.putStrLn (Cycle.runLine l)
+    return 0
+  | ["glob"] =>
+    for l in lines do out.putStrLn (Glob.runLine l)
     return 0
   | ["defs"] =>
     for l in Defs.run lines.toList do out.putStrLn l
